@@ -96,6 +96,16 @@ func FindGrouping(n Node, name string, seen map[string]bool) *Grouping {
 				}
 			}
 		}
+		// A submodule also sees the groupings of the module it belongs to
+		// and of that module's other submodules.
+		if m, ok := n.(*Module); ok && m.BelongsTo != nil && m.Modules != nil && !strings.Contains(name, ":") {
+			if owner := m.Modules.Modules[m.BelongsTo.Name]; owner != nil && !seen[owner.Name] {
+				seen[owner.Name] = true
+				if g := FindGrouping(owner, name, seen); g != nil {
+					return g
+				}
+			}
+		}
 		n = n.ParentNode()
 	}
 	return nil
